@@ -117,6 +117,10 @@ pub struct PollSys {
     /// pumped cycles (see `PoAct::Pump`) and the number of repetitions
     pub pump_cycles: Vec<Vec<PumpOp>>,
     pub pump_reps: u32,
+    /// number of leading entries of `pump_cycles` (those of length <= 2) that are additionally
+    /// offered with 70000 rounds from states within one step of the initial state (thorough tier):
+    /// 16-bit counters driven by feeds or polls
+    pub long_pumps: usize,
     pub alphabet: Vec<(u8, u8)>,
     pub probes: Vec<(u8, u8)>,
     pub others: Vec<(u8, u8, u8)>,
@@ -177,6 +181,7 @@ impl PollSys {
             storms: Vec::new(),
             pump_cycles: Vec::new(),
             pump_reps: 300,
+            long_pumps: 0,
             alphabet,
             probes,
             others: noncontrib_small::<PollingParameterNumberMessageScanner>(ch),
@@ -222,10 +227,10 @@ impl PollSys {
         self
     }
 
-    fn pump(&self, s: &PoState, cycle: &[PumpOp]) -> Step<PoState> {
+    fn pump(&self, s: &PoState, cycle: &[PumpOp], reps: u32) -> Step<PoState> {
         let mut cur = PoState { sc: s.sc, now: s.now, ob: s.ob };
         let mut v = Vec::new();
-        'outer: for it in 0..self.pump_reps {
+        'outer: for it in 0..reps {
             for op in cycle {
                 let r = match op {
                     PumpOp::Cc(c, val) => self.feed_core(&cur, 0xB0 | self.ch, *c, *val),
@@ -624,6 +629,11 @@ impl System for PollSys {
                 }
             }
         }
+        if depth <= 1 {
+            for i in 0..self.long_pumps.min(self.pump_cycles.len()) {
+                out.push(PoAct::Pump((self.pump_cycles.len() + i) as u16));
+            }
+        }
         out.push(PoAct::TouchAll);
         out.push(PoAct::Reset);
         out.push(PoAct::ResetProbe);
@@ -685,7 +695,11 @@ impl System for PollSys {
             PoAct::Pause(i) => format!("pause:{}", self.pauses[*i as usize]),
             PoAct::ResetStorm(i) => format!("resetstorm:{}:{}", self.storms[*i as usize].0, self.storms[*i as usize].1),
             PoAct::TouchAll => "touchall".to_string(),
-            PoAct::Pump(i) => format!("pump:{}x{:?}", self.pump_reps, self.pump_cycles[*i as usize]).replace(' ', ""),
+            PoAct::Pump(i) => {
+                let n = self.pump_cycles.len();
+                let (reps, c) = if (*i as usize) < n { (self.pump_reps, &self.pump_cycles[*i as usize]) } else { (70_000, &self.pump_cycles[*i as usize - n]) };
+                format!("pump:{}x{:?}", reps, c).replace(' ', "")
+            }
             PoAct::Reset => "reset".to_string(),
             PoAct::ResetProbe => "resetprobe".to_string(),
         }
@@ -709,7 +723,11 @@ impl System for PollSys {
                 }
             }
             PoAct::TouchAll => "for c in 0..16 { scanner.feed(&helgoboss_midi::test_util::note_on(c, 1, 1)); scanner.feed(&helgoboss_midi::test_util::control_change(c, 7, 1)); }".to_string(),
-            PoAct::Pump(i) => format!("for _ in 0..{} {{ /* one round of {:?} on channel {} (Cc(n, v) = feed control_change, Poll = poll, Tick = clock += 1) */ }}", self.pump_reps, self.pump_cycles[*i as usize], self.ch),
+            PoAct::Pump(i) => {
+                let n = self.pump_cycles.len();
+                let (reps, c) = if (*i as usize) < n { (self.pump_reps, &self.pump_cycles[*i as usize]) } else { (70_000, &self.pump_cycles[*i as usize - n]) };
+                format!("for _ in 0..{} {{ /* one round of {:?} on channel {} (Cc(n, v) = feed control_change, Poll = poll, Tick = clock += 1) */ }}", reps, c, self.ch)
+            }
             PoAct::Reset | PoAct::ResetProbe => "scanner.reset();".to_string(),
         }
     }
@@ -784,7 +802,14 @@ impl PollSys {
                 let ob = Obs { last6: s.ob.last6, last38: s.ob.last38, ..Obs::default() };
                 Step { strict: false, next: Some(PoState { sc, now: s.now, ob }), obs: 0, violations: v }
             }
-            PoAct::Pump(i) => self.pump(s, &self.pump_cycles[*i as usize]),
+            PoAct::Pump(i) => {
+                let n = self.pump_cycles.len();
+                if (*i as usize) < n {
+                    self.pump(s, &self.pump_cycles[*i as usize], self.pump_reps)
+                } else {
+                    self.pump(s, &self.pump_cycles[*i as usize - n], 70_000)
+                }
+            }
             PoAct::TouchAll => {
                 set_now_millis(s.now);
                 let mut sc = s.sc;
@@ -875,6 +900,10 @@ fn run_observer(chk: &xs::Check, tier: xs::Tier, pid: &'static str, report: PRep
                 sys.storms = vec![(256, false), (65536, false), (65536, true)];
                 if t_us == 0 || t_us == 2000 {
                     sys = sys.with_pumps(if report.c14 { 3 } else { 2 });
+                    if tier.thorough() && report.c14 && t_us == 0 {
+                        // the 100 cycles of length <= 2 come first in pump_cycles
+                        sys.long_pumps = 100;
+                    }
                 }
             }
             // second-step probing: on the first channel with the 2 ms timeout in the quick tier, on
